@@ -352,7 +352,9 @@ enum Op { Ns(&'static str), Name(&'static str), Ver(&'static str), Sub(&'static 
           /// typed setters and direct use of the builder's public qualifier list
           TRepo(&'static str), NoTRepo, TTag(&'static str), NoTTag, NoTBad, RawQ(&'static str, &'static str), RawClear(&'static str),
           /// overwrite an EXISTING qualifier through IndexMut, resp. set one through the entry API
-          RawIdx(&'static str, &'static str), RawEntry(&'static str, &'static str) }
+          RawIdx(&'static str, &'static str), RawEntry(&'static str, &'static str),
+          /// build() and convert the value back into a builder (a failed build leaves the builder as it was)
+          Rebuild }
 
 #[derive(Clone, Debug, Default)]
 struct BModel { ty: String, ns: String, name: String, ver: String, sub: String, q: BTreeMap<String, String>, bad_key: bool }
@@ -371,6 +373,7 @@ pub fn suite_builder(ctx: &Ctx, thorough: bool) {
     ops.push(Op::TRepo("")); ops.push(Op::TRepo("u")); ops.push(Op::NoTRepo); ops.push(Op::TTag("t")); ops.push(Op::NoTTag); ops.push(Op::NoTBad);
     ops.push(Op::RawQ("r", "")); ops.push(Op::RawQ("K", "raw")); ops.push(Op::RawClear("k"));
     ops.push(Op::Ns("a///b")); ops.push(Op::Sub("x////y/"));
+    ops.push(Op::TRepo(" r\t")); ops.push(Op::Rebuild);
     ops.push(Op::RawIdx("checksum", "SHA256:AABB,md5:00FF")); ops.push(Op::RawIdx("Checksum", "sha256:xyz")); ops.push(Op::RawEntry("checksum", "B:00,a:11")); ops.push(Op::RawEntry("k", ""));
     let len = if thorough { 4 } else { 3 };
     let n = ops.len();
@@ -387,7 +390,8 @@ pub fn suite_builder(ctx: &Ctx, thorough: bool) {
     {
         let mut qops: Vec<Op> = vec![];
         for k in ["a", "b", "c", "B"] { qops.push(Op::Q(k, "x")); qops.push(Op::NoQ(k)); }
-        qops.push(Op::Q("c", "")); qops.push(Op::TTag("t")); qops.push(Op::RawClear("b"));
+        qops.push(Op::Q("c", "")); qops.push(Op::TTag("t")); qops.push(Op::RawClear("b")); qops.push(Op::Rebuild);
+        qops.push(Op::Q("checksum", "sha1:ab")); qops.push(Op::RawIdx("checksum", "SHA256:AABB,md5:00FF")); qops.push(Op::RawIdx("checksum", "sha256:xyz"));
         let depth = if thorough { 6 } else { 5 };
         let nq = qops.len();
         let total_q = (1..=depth).map(|l| nq.pow(l as u32)).sum::<usize>();
@@ -452,6 +456,18 @@ fn builder_one(ctx: &Ctx, seq: Vec<Op>) {
                 Op::NoTBad => { let c2 = cur.clone(); match guarded(move || c2.with_typed_qualifier(None::<BadKey>)) { Ok(nb) => nb, Err(p) => { ctx.violate("C06.panic", "unsetting a typed qualifier never panics", json!(format!("{seq:?}")), p, "no panic".into()); cur } } },
                 Op::RawQ(k, v) => { let mut c2 = cur; if c2.parts.qualifiers.insert(*k, *v).is_ok() { m.q.insert(k.to_ascii_lowercase(), v.to_string()); } c2 },
                 Op::RawClear(k) => { let mut c2 = cur; if let Some(v) = c2.parts.qualifiers.get_mut(*k) { v.clear(); m.q.insert(k.to_ascii_lowercase(), String::new()); } c2 },
+                Op::Rebuild => {
+                    match guarded(|| cur.clone().build()) {
+                        Ok(Ok(p)) => {
+                            // what build() hands out: type lower-cased, empty values dropped, checksum canonical
+                            m.ty = m.ty.to_ascii_lowercase();
+                            m.q.retain(|_, v| !v.is_empty());
+                            if let Some(c) = m.q.get("checksum").cloned() { if let Some(cc) = refimpl::checksum_canon(&c) { m.q.insert("checksum".into(), cc); } }
+                            p.into_builder()
+                        },
+                        _ => cur,
+                    }
+                },
                 Op::RawIdx(k, v) => { let mut c2 = cur; if c2.parts.qualifiers.contains_key(*k) { c2.parts.qualifiers[*k] = SmallString::from(*v); m.q.insert(k.to_ascii_lowercase(), v.to_string()); } c2 },
                 Op::RawEntry(k, v) => { let mut c2 = cur; if let Ok(e) = c2.parts.qualifiers.entry(*k) { *e.and_modify(|x| x.clear()).or_insert("") = SmallString::from(*v); m.q.insert(k.to_ascii_lowercase(), v.to_string()); } c2 },
                 Op::Q(k, v) => {
@@ -480,6 +496,7 @@ fn builder_one(ctx: &Ctx, seq: Vec<Op>) {
                     && o.namespace == Some(m.ns.clone()).filter(|s| !s.is_empty()) && o.version == Some(m.ver.clone()).filter(|s| !s.is_empty())
                     && o.subpath == Some(m.sub.clone()).filter(|s| !s.is_empty()) && o.qualifiers.iter().cloned().collect::<BTreeMap<_, _>>() == wq;
                 if !ok { ctx.violate("C09.fields", "accessors return what was last set for each field", inp(), format!("{o:?}"), format!("{m:?}")); }
+                if let Some(Some(c)) = &cks { if p.qualifiers().get("checksum") != Some(c.as_str()) { ctx.violate("C12.purl", "a PURL carries the one canonical text", inp(), format!("{:?}", p.qualifiers().get("checksum")), c.clone()); } }
                 check_valid(ctx, &format!("{seq:?}"), "builder", &p, true);
                 let text = p.to_string();
                 match parse_string(&text) {
@@ -508,6 +525,7 @@ fn builder_one(ctx: &Ctx, seq: Vec<Op>) {
                         Op::TTag(u) => tb.with_typed_qualifier(Some(UpperTag(u))), Op::NoTTag => tb.with_typed_qualifier(None::<UpperTag>), Op::NoTBad => tb,
                         Op::RawQ(k, v) => { let mut c2 = tb; let _ = c2.parts.qualifiers.insert(*k, *v); c2 },
                         Op::RawClear(k) => { let mut c2 = tb; if let Some(v) = c2.parts.qualifiers.get_mut(*k) { v.clear(); } c2 },
+                        Op::Rebuild => { match guarded(|| tb.clone().build()) { Ok(Ok(p)) => p.into_builder(), _ => tb } },
                         Op::RawIdx(k, v) => { let mut c2 = tb; if c2.parts.qualifiers.contains_key(*k) { c2.parts.qualifiers[*k] = SmallString::from(*v); } c2 },
                         Op::RawEntry(k, v) => { let mut c2 = tb; if let Ok(e) = c2.parts.qualifiers.entry(*k) { *e.and_modify(|x| x.clear()).or_insert("") = SmallString::from(*v); } c2 },
                     };
@@ -840,7 +858,7 @@ pub fn suite_shapes(ctx: &Ctx, thorough: bool) {
     for n in [23usize, 24, 25, 64, 300, if thorough { 70000 } else { 1025 }] {
         types_v.push(inflate("aB", n)); types_v.push(format!("{}Z", inflate("a", n))); types_v.push(format!("{}!", inflate("a", n)));
     }
-    strs_v.push(inflate("aB/", 24)); strs_v.push(inflate("é", 300));
+    strs_v.push(inflate("aB/", 24)); strs_v.push(inflate("é", 300)); strs_v.push("{x}`<>\"|^ \\".to_string());
     for ty in &types_v { let ty = ty.as_str(); for ns in &strs_v { let ns = ns.as_str(); for name in &strs_v { let name = name.as_str(); for ver in &strs_v { let ver = ver.as_str();
         ctx.eval();
         let mk = |o: Result<Obs, String>, s: Option<String>| (o, s);
